@@ -148,6 +148,43 @@ def _stored_names(func):
     return {n.id for n in func.body_nodes() if isinstance(n, ast.Name) and isinstance(n.ctx, ast.Store)}
 
 
+def eliminate_bare_returns(body):
+    """statement list of a helper that is called for its effects -> equivalent list without `return` (the statements after an
+    `if ..: return` become its else branch), or None when a value is returned or a return sits inside a loop / try / with"""
+    def has_return(st):
+        return any(isinstance(n, ast.Return) for n in ast.walk(st) if not isinstance(n, (ast.FunctionDef, ast.Lambda)) or n is st)
+
+    def elim(stmts):
+        out = []
+        for i, st in enumerate(stmts):
+            if isinstance(st, ast.Return):
+                if st.value is not None and not (isinstance(st.value, ast.Constant) and st.value.value is None):
+                    return None
+                return out, True
+            if isinstance(st, ast.If) and has_return(st):
+                rb = elim(st.body)
+                ro = elim(st.orelse) if st.orelse else ([], False)
+                if rb is None or ro is None:
+                    return None
+                (b, b_ret), (o, o_ret) = rb, ro
+                rest = elim(stmts[i + 1:])
+                if rest is None:
+                    return None
+                r, r_ret = rest
+                nb = b + ([] if b_ret else copy.deepcopy(r))
+                no = o + ([] if o_ret else copy.deepcopy(r))
+                new = ast.If(test=st.test, body=nb or [ast.Pass()], orelse=no)
+                ast.copy_location(new, st)
+                out.append(new)
+                return out, (b_ret or r_ret) and (o_ret or r_ret)
+            if has_return(st):
+                return None
+            out.append(st)
+        return out, False
+    r = elim(body)
+    return None if r is None else r[0]
+
+
 def inline_helpers(project, func, max_stmts=14, depth=2, select=None):
     """Return a deep copy of func.node in which calls to small, non-recursive project functions defined in the same module
     (module-level or nested) are replaced by their bodies.  Only helpers that are called as a statement (result unused),
@@ -241,7 +278,13 @@ def inline_helpers(project, func, max_stmts=14, depth=2, select=None):
                 if g is not None:
                     b = body_of(g)
                     has_ret = any(isinstance(n, ast.Return) for n in g.body_nodes())
-                    if not has_ret or (isinstance(b[-1], ast.Return) and sum(isinstance(n, ast.Return) for n in g.body_nodes()) == 1 and b[-1].value is None):
+                    simple = not has_ret or (isinstance(b[-1], ast.Return) and sum(isinstance(n, ast.Return) for n in g.body_nodes()) == 1 and b[-1].value is None)
+                    if not simple:
+                        # early `return`s of a helper called for its effects: the rest of the body becomes the else branch
+                        b2 = eliminate_bare_returns(copy.deepcopy(b))
+                        if b2 is not None:
+                            b, simple = b2, True
+                    if simple:
                         m = bind(g, st.value)
                         if m is not None:
                             new = [_Subst(m).visit(copy.deepcopy(s)) for s in b if not isinstance(s, ast.Return)]
